@@ -307,6 +307,15 @@ def extra_grams(tier, seed, start_gid):
             sg.maxlen = 3 if tier == "quick" else 4
             out.append(sg)
             gid += 1
+    # rematch with several rules after the head, behind a prefix that crosses a line end: every rule is restarted at the
+    # beginning of the rematched range and must report absolute positions (named rules: actions read the positions)
+    for body, al in [("seq< star< one< '\\n', 'b' > >, rematch< plus< one< 'a' > >, N0, N1, star< any > > >", "a\nb"),
+                     ("seq< opt< any >, rematch< seq< any, opt< any > >, opt< N0 >, at< N1 >, must< any > > >", "a\nb"),
+                     ("star< sor< rematch< seq< one< 'a' >, opt< eol > >, any, N0, star< N1 > >, any > >", "a\n\r")]:
+        g = G(gid, [("N0", "seq< one< 'a' >, opt< one< 'a' > > >"), ("N1", "one< 'a' >")], body, tags=["c06", "c06:rematch3"], alphabet=al)
+        g.maxlen = 4 if tier == "quick" else 5
+        out.append(g)
+        gid += 1
     # documented deviations (known-finding witnesses) and the lazy byte() observation
     dev = [
         ("seq< eol, star< any > >", "a\r\n", ["c06", "dev:cr_crlf"]),
